@@ -25,18 +25,14 @@
                                  the fences regenerated from the source
      c02_wake_tests_match_waiter_bit, c02_timeout_refresh, c02_memory_order_obligations
                                  the regenerated `<= UINT16_MAX` tests, `+ UINT16_MAX + 1`, the timeout refresh and the orders
-   PARTIAL - NOT PROVED: c02_no_deadlock_statement (below): for balanced programs of blocking ops with one-sided threads some
-   thread is always enabled.  What is missing is only the client-level ticket accounting: (i) every issued unpublished ticket is
-   held by a thread, (ii) the ticket counters equal the elements of the calls that have obtained their tickets; with these the
-   minimal (round, side) awaited ticket is ready, so by c02_deadlock_not_lost_wakeup the state is not a deadlock.  The step from
-   "no reachable deadlock" to termination under a fair scheduler is the standard argument and is not mechanised.  The statement is
-   checked at every run by exhaustive exploration of the extracted model on the small programs (model deadlocks must be exactly
-   the ones the program structure explains) and by the deadlock detector of the scheduler on the implementation.
-   The 16-bit wrap: c02_no_lost_wakeup assumes versions below 2^16 (fewer than 2^15 rounds); beyond that the model (unbounded
+     c02_no_deadlock             (balanced programs of blocking calls with one-sided threads, versions below 2^16) a reachable
+                                 state with an unfinished thread always has an enabled thread; termination under a fair
+                                 scheduler is the standard consequence and is not mechanised
+   The 16-bit wrap: c02_no_lost_wakeup and c02_no_deadlock assume versions below 2^16 (fewer than 2^15 rounds); beyond that the model (unbounded
    versions compared through 16-bit words, as the code does) admits the ABA "waiter pre-empted for exactly 2^15 rounds". *)
 From Coq Require Import ZArith List Bool.
 Require Import Verif.Gen.Gen_bounded_queue Verif.Conc.Machine Verif.BQ.BQModel Verif.BQ.BQProofs.
-Require Import Verif.BQ.BQInvDefs Verif.BQ.BQInvStep Verif.BQ.BQInvMain Verif.BQ.BQInvThm Verif.BQ.BQWake Verif.BQ.BQFifo Verif.BQ.BQTry.
+Require Import Verif.BQ.BQInvDefs Verif.BQ.BQInvStep Verif.BQ.BQInvMain Verif.BQ.BQInvThm Verif.BQ.BQWake Verif.BQ.BQFifo Verif.BQ.BQTry Verif.BQ.BQDead.
 Import ListNotations.
 Local Open Scope Z_scope.
 
@@ -138,21 +134,28 @@ Theorem c02_finished_threads_idle : forall k progs s u thu, usage_ok k progs = t
 Proof. exact bq_finished_idle. Qed.
 Print Assumptions c02_finished_threads_idle.
 
-(* ---- full-strength statement that is NOT proved (see header): kept visible, checked by exploration + monitors ---- *)
-Definition balanced (progs : list (list op)) : Prop :=
-  fold_right Nat.add 0%nat (map onum (side_ops true (all_ops progs))) =
-  fold_right Nat.add 0%nat (map onum (side_ops false (all_ops progs))).
-Definition blocking_only (progs : list (list op)) : Prop :=
-  Forall (fun o => okind o = KSingle \/ okind o = KBatch) (all_ops progs).
-Definition one_sided_threads (progs : list (list op)) : Prop :=
-  Forall (fun p => side_ops true p = [] \/ side_ops false p = []) progs.
-Definition c02_no_deadlock_statement : Prop := forall k progs s, usage_ok k progs = true -> balanced progs ->
-  blocking_only progs -> one_sided_threads progs -> Reach k progs s -> all_done s = false ->
-  exists t, (t < length (threads s))%nat /\ step s t <> None.
+(* ---- no deadlock: in a program whose pushes and pops balance (balanced), made of blocking calls push / pop / push_n / pop_n
+   with any flags (blocking_only), each thread producing only or consuming only (one_sided_threads), no reachable state with an
+   unfinished thread is a deadlock - some thread can always step.  Proof (BQ/BQDead.v): every issued ticket is published or
+   held by a thread (NL); the ticket counters equal the elements of the calls that obtained their tickets (AC); among the
+   tickets awaited by sleepers take one of minimal expected version: the ticket it depends on (same slot, version one less) is
+   unpublished, hence held by - or, by the accounting and balance, still to be requested by - a thread that is itself asleep on
+   a ticket of smaller-or-equal expected version, contradiction; so by c02_deadlock_not_lost_wakeup nobody can be asleep.
+   Same 16-bit hypothesis as c02_no_lost_wakeup (versions below 2^16).  Termination under a fair scheduler is the standard
+   consequence and is not mechanised. *)
+Theorem c02_no_deadlock : forall k progs s, usage_ok k progs = true -> balanced progs -> blocking_only progs -> one_sided_threads progs ->
+  Reach k progs s -> small s -> all_done s = false -> exists t, (t < length (threads s))%nat /\ step s t <> None.
+Proof. exact bq_no_deadlock. Qed.
+Print Assumptions c02_no_deadlock.
 
 (* non-vacuity: a usage_ok program; a reachable state with a sleeper and a pending wake; a run that finishes *)
 Example c02_usage_example : usage_ok 1 [[OPush f111 1; OPushN f111 [2; 3]]; [OPop f111; OPopN f111 2]] = true.
 Proof. exact bq_usage_example. Qed.
+Example c02_balanced_example :
+  balanced [[OPush f111 1; OPushN f111 [2; 3]]; [OPop f111; OPopN f111 2]] /\
+  blocking_only [[OPush f111 1; OPushN f111 [2; 3]]; [OPop f111; OPopN f111 2]] /\
+  one_sided_threads [[OPush f111 1; OPushN f111 [2; 3]]; [OPop f111; OPopN f111 2]].
+Proof. exact bq_balanced_example. Qed.
 Example c02_reach_example :
   exists s, Reach 0 [[OPush f111 1]; [OPop f111]] s /\ existsb parked_b (threads s) = true /\
             existsb wake_pending_b (threads s) = true /\ err s = false.
